@@ -1,33 +1,46 @@
 ----------------------------- MODULE CastChain -----------------------------
 (***************************************************************************)
 (* Property C10 as a VALUE-STATE MACHINE.  The state is one typed atomic   *)
-(* value (or none / an error) under one XSD version; the actions are       *)
-(*   Pick(T) ; Construct   the lexical mapping of T applied to a literal   *)
-(*   Cast(T)           F&O 19 cast of the current value to T               *)
-(*   Castable(T)       the boolean "cast would succeed"                    *)
-(*   ToStr          fn:string of the current value (canonical form)     *)
+(* value (or none / a literal / an error) under one XSD version; actions:  *)
+(*   Pick(T)      choose a literal (token sequence) of type T              *)
+(*   Construct    the lexical mapping of that type applied to the literal  *)
+(*   Cast(T)      F&O 19 cast of the current value to T                    *)
+(*   Castable(T)  the boolean "the cast would succeed"                     *)
+(*   ToStr        fn:string of the current value (canonical form)          *)
 (* Behaviours are chains  xs:T2(string(xs:T1($s))) ...; the dumped graph is *)
 (* the test plan of engine/props/c10.py: every Construct edge is replayed  *)
 (* on the Python constructor, T.is_valid, xs:T($s), cast as, castable as;  *)
-(* every other edge on the nested XPath expression of its history.         *)
+(* every other edge on the nested XPath expression of its history.  Many   *)
+(* literals map to one value state: equal values must be equal objects     *)
+(* with equal hashes in the implementation.                                *)
 (*                                                                         *)
 (* Literals are enumerated per type FAMILY: every token sequence of length *)
 (* <= MaxLen over the family alphabet, plus probes (subtype bounds -1/0/+1,*)
 (* canonical-form boundaries of doubles, component grids of date/time      *)
 (* types, one valid literal of every other family).                        *)
+(*                                                                         *)
+(* Laws (invariant Laws): the canonical form is a fixed point of the       *)
+(* lexical mapping; value-preserving casts round-trip; Y cells of the      *)
+(* casting table never fail and N cells raise XPTY0004; hexBinary and      *)
+(* base64Binary denote the same octets; the whitespace facet is            *)
+(* pre-lexical and idempotent; a derived type accepts a subset of its      *)
+(* base; subtype bounds are inclusive at both ends.  Castable(T) is true   *)
+(* exactly when Cast(T) is not an error by construction.                   *)
 (***************************************************************************)
 EXTENDS CastTable
 
 CONSTANTS MaxLen,      \* token-sequence length bound of the family alphabets
-          Depth,       \* chain length bound (TLC level)
+          MaxCasts,    \* chain length bound: number of Cast / Castable / ToStr steps after Construct
           Fams,        \* families whose types are constructed from literals
           Targets,     \* target types of Cast / Castable
           Versions,    \* subset of {"1.0", "1.1"}
           Grid         \* "small" | "full": component grids of the date/time literals
 
 VARIABLES val,    \* None, a literal [k |-> "lit", t, ts], a typed value or an error
-          ver     \* XSD version, fixed by the initial state
-vars == <<val, ver>>
+          ver,    \* XSD version, fixed by the initial state
+          steps   \* number of cast steps taken since Construct (bounds the chains deterministically;
+                  \* a value reached by construction and by a cast is explored in both roles)
+vars == <<val, ver, steps>>
 
 None == [k |-> "none"]
 IsTyped(v) == v.k \notin {"none", "lit", "err"}
@@ -159,32 +172,30 @@ Strs(T) == AllSeqs(Alphabet(FamOf(T)), FamLen(FamOf(T))) \cup Probes(T) \cup Cro
 PrimTargets == {"untypedAtomic", "string", "float", "double", "decimal", "integer", "duration", "yearMonthDuration",
                 "dayTimeDuration", "dateTime", "time", "date", "gYearMonth", "gYear", "gMonthDay", "gDay", "gMonth",
                 "boolean", "base64Binary", "hexBinary", "anyURI", "QName"}
-(* chains: level 1 = no value, level 2 = a literal of a type (one state per literal: TLC enumerates and
-   judges them in parallel), level 3 = constructed values (cast to every target), deeper levels (cast to
-   the primitive targets only) up to Depth; the level is not part of the state *)
-Lvl == TLCGet("level")
-MayCast(T) == Usable(val) /\ Lvl < Depth /\ (Lvl <= 3 \/ T \in PrimTargets) /\ TypeExists(T, ver)
-Init == val = None /\ ver \in Versions
+(* chains: None -> literal (one state per literal: TLC enumerates and judges them in parallel) ->
+   constructed value (steps = 0: cast / castable to every target) -> cast results (steps >= 1: cast to the
+   primitive targets only) ... up to MaxCasts steps *)
+MayCast(T) == Usable(val) /\ steps < MaxCasts /\ (steps = 0 \/ T \in PrimTargets) /\ TypeExists(T, ver)
+Init == val = None /\ ver \in Versions /\ steps = 0
 Pick(T) == /\ val.k = "none" /\ TypeExists(T, ver)
            /\ \E ts \in Strs(T) : val' = [k |-> "lit", t |-> T, ts |-> ts]
-           /\ UNCHANGED ver
+           /\ UNCHANGED <<ver, steps>>
 Construct == /\ val.k = "lit"
-             /\ val' = Parse(val.t, Flat(val.ts), ver) /\ UNCHANGED ver
+             /\ val' = Parse(val.t, Flat(val.ts), ver) /\ UNCHANGED <<ver, steps>>
 Cast(T) == /\ MayCast(T)
-           /\ val' = CastTo(val, T, ver) /\ UNCHANGED ver
+           /\ val' = CastTo(val, T, ver) /\ steps' = steps + 1 /\ UNCHANGED ver
 Unjudged(w) == IsErr(w) /\ w.code \in {"LIMIT", "UNSPEC"}      \* pseudo errors: outside the specification
-Castable(T) == /\ MayCast(T)
+Castable(T) == /\ MayCast(T) /\ steps = 0
                /\ LET w == CastTo(val, T, ver) IN
                   val' = IF Unjudged(w) THEN w ELSE [k |-> "bool", t |-> "boolean", b |-> ~IsErr(w)]
-               /\ UNCHANGED ver
-ToStr == /\ Usable(val) /\ Lvl < Depth /\ val' = Str("string", Canon(val)) /\ UNCHANGED ver
+               /\ steps' = steps + 1 /\ UNCHANGED ver
+ToStr == /\ Usable(val) /\ steps < MaxCasts /\ val' = Str("string", Canon(val)) /\ steps' = steps + 1 /\ UNCHANGED ver
 Next == \/ \E T \in Types : Pick(T)
         \/ Construct
         \/ \E T \in Targets : Cast(T)
         \/ \E T \in Targets : Castable(T)
         \/ ToStr
 Spec == Init /\ [][Next]_vars
-Bounded == TLCGet("level") <= Depth
 
 ---------------------------------------------------------------------------
 (* LAWS, checked by TLC on every reachable value *)
